@@ -347,19 +347,246 @@ def n_sample_at(cases):
     return max(0, len(cases) - 40)
 
 
+
+# ---------------------------------------------------------------------------------------------
+# executor cases
+
+import re as _re
+
+MASKS = {  # template -> (regex the generator uses to know what it matches, has {n})
+    "a{n}": (r"a(\d+)", True), "b{n}": (r"b(\d+)", True), "c{n}": (r"c(\d+)", True),
+    "{r:[ab]}{n}": (r"[ab](\d+)", True), "{r:[bc]}{n}": (r"[bc](\d+)", True),
+    "{x:.*}": (r".*", False), "{r:\\w}{n}": (r"\w(\d+)", True),
+}
+CONDS = {"none": lambda l, r: True, "eq": lambda l, r: l == r, "lt": lambda l, r: l < r, "ne": lambda l, r: l != r}
+FAMS = ["ipv4_unicast", "ipv6_unicast", "l2vpn_evpn"]
+
+
+def mask_n(mask, name):
+    rx, has_n = MASKS[mask]
+    m = _re.fullmatch(rx, name)
+    if not m:
+        return None
+    return (int(m.group(1)),) if has_n else ()
+
+
+def rule_matches(rule, left, right) -> bool:
+    l, r = mask_n(rule["left"], left), mask_n(rule["right"], right)
+    if l is None or r is None:
+        return False
+    if rule["cond"] == "none":
+        return True
+    if not l or not r:
+        return False          # Left.n raises AttributeError -> match_safe is False
+    return CONDS[rule["cond"]](l[0], r[0])
+
+
+def sv(v):
+    if isinstance(v, (set, frozenset, list)):
+        return {"k": "set", "v": [scalar(x) for x in sorted(v)]}
+    return scalar(v)
+
+
+def gen_exec_case(rng, big: bool) -> dict:
+    pool = ["a1", "a2", "b1", "b2", "c1", "b3"]
+    devs = rng.sample(pool, rng.randint(2, 5))
+    idx = {d: i + 1 for i, d in enumerate(pool)}
+    ports = {d: [] for d in devs}
+    links = {}
+    for i, x in enumerate(devs):
+        for y in devs[i + 1:]:
+            k = rng.choice([0, 0, 1, 1, 2, 3])
+            for _ in range(k):
+                px, py = f"e{len(ports[x]) + 1}", f"e{len(ports[y]) + 1}"
+                ports[x].append([px, y, py])
+                ports[y].append([py, x, px])
+                links.setdefault((x, y), []).append((px, py))
+                links.setdefault((y, x), []).append((py, px))
+    for d in devs:
+        if rng.random() < 0.5:
+            rng.shuffle(ports[d])
+    # local port order of `x` towards `y` as the stub storage reports it
+    def conn(x, y):
+        return [(p, nbp) for p, nb, nbp in ports[x] if nb == y]
+    n_rules = rng.choice([1, 2, 2, 3, 3, 4] if big else [1, 2, 2, 3, 3, 3])
+    shared_mask = rng.choice(list(MASKS)), rng.choice(list(MASKS))
+    rules = []
+    for ri in range(n_rules):
+        kind = "direct" if rng.random() < 0.7 else "indirect"
+        if rng.random() < 0.6:
+            lm, rm = shared_mask
+        else:
+            lm, rm = rng.choice(list(MASKS)), rng.choice(list(MASKS))
+        rule = {"kind": kind, "left": lm, "right": rm, "cond": rng.choice(["none", "none", "eq", "lt", "ne"]),
+                "pp": rng.choice(["united", "united", "separate"]), "table": {}}
+        variant = 0 if rng.random() < 0.7 else ri + 1      # variant 0: same session as other handlers
+        extra = rng.random()
+        for L in devs:
+            for R in devs:
+                if not rule_matches(rule, L, R):
+                    continue
+                if kind == "direct":
+                    c = conn(L, R)
+                    if not c:
+                        continue
+                    groups = [c] if rule["pp"] == "united" else [[x] for x in c]
+                else:
+                    groups = [None]
+                for g in groups:
+                    if rng.random() < 0.08:
+                        continue                        # handler sets nothing for this call
+                    if g is None:
+                        key, gi = f"{L}|{R}|", 0
+                    else:
+                        key = f"{L}|{R}|" + ",".join(sorted(p for p, _ in g))
+                        gi = min(int(p[1:]) for p, _ in g)
+                    base = f"10.{idx[L] * 8 + idx[R]}.{variant * 16 + gi}" if kind == "direct" \
+                        else f"172.{idx[L] * 8 + idx[R]}.{variant}"
+                    l = {"addr": base + ".1/30"}
+                    r = {"addr": base + ".2/30"}
+                    s = {}
+                    if extra < 0.4:
+                        s["asnum"] = 65000
+                    else:
+                        l["asnum"], r["asnum"] = 65000 + idx[L], 65000 + idx[R]
+                    if rng.random() < 0.05:
+                        l["asnum"] = 64999 - ri                     # conflicting AS numbers
+                        s.pop("asnum", None)
+                        r.setdefault("asnum", 65000 + idx[R])
+                    if rng.random() < 0.7:
+                        s["families"] = set(f for f in FAMS if rng.random() < 0.5)
+                    if rng.random() < 0.3:
+                        s["vrf"] = rng.choice(["V1", "V1", "V2"]) if variant else "V1"
+                    if rng.random() < 0.3:
+                        s["group_name"] = "G1" if rng.random() < 0.9 else f"G{ri}"
+                    if rng.random() < 0.3:
+                        s["bfd"] = True
+                    if rng.random() < 0.3:
+                        s["import_policy"] = "IMP" if rng.random() < 0.9 else f"IMP{ri}"
+                    if rng.random() < 0.4:
+                        l["mtu"], r["mtu"] = 9000, 9000 + (ri if rng.random() < 0.1 else 0)
+                    if rng.random() < 0.3:
+                        l["description"] = f"to {R}"
+                        r["description"] = f"to {L}"
+                    if rng.random() < 0.2:
+                        l["send_community"] = True
+                    if kind == "direct":
+                        many = len(g) > 1
+                        mode = rng.random()
+                        if many and mode < 0.75:
+                            l["lag"] = r["lag"] = 1 + gi
+                            if rng.random() < 0.3:
+                                l["lag_links_min"] = r["lag_links_min"] = 1
+                            if rng.random() < 0.2:
+                                l["subif"] = r["subif"] = 100
+                        elif many and mode < 0.85:
+                            l["svi"] = r["svi"] = 10 + gi
+                        elif many and mode < 0.93:
+                            l["lag"] = 1 + gi                    # one side only: the other end must raise
+                        elif not many and mode < 0.2:
+                            l["subif"] = r["subif"] = 200 + ri
+                        elif not many and mode < 0.3:
+                            l["svi"] = r["svi"] = 20 + gi
+                        elif not many and mode < 0.34:
+                            l["svi"], l["lag"] = 5, 6             # InterfaceChanges refuses the pair
+                    else:
+                        m = rng.random()
+                        if m < 0.5:
+                            l["ifname"] = r["ifname"] = "lo0"
+                        elif m < 0.8:
+                            l["svi"] = r["svi"] = 30 + idx[L] + idx[R]
+                        else:
+                            l["ifname"] = r["ifname"] = "lo0"
+                            l["subif"] = r["subif"] = 7
+                    rule["table"][key] = {"l": {f: sv(v) for f, v in l.items()},
+                                          "r": {f: sv(v) for f, v in r.items()},
+                                          "s": {f: sv(v) for f, v in s.items()}}
+        rules.append(rule)
+    return {"devices": devs, "ports": ports, "rules": rules}
+
+
+def cxres(o: dict) -> str:
+    if "ok" in o:
+        peers = clist(centries(p) for p in o["ok"]["peers"])
+        addrs = clist(cpair(cstr(i), cstr(a)) for i, a, _ in o["ok"]["addrs"])
+        return f"(XOk {peers} {addrs})"
+    return "XValueError" if o["err"] == "ValueError" else "XOther"
+
+
+def exec_term(case, out) -> str:
+    per_dev = []
+    for d in case["devices"]:
+        seen, distinct = set(), []
+        for o in out["out"][d]:
+            key = json.dumps({k: v for k, v in o.items() if k not in ("msg",)}, sort_keys=True)
+            if key not in seen:
+                seen.add(key)
+                distinct.append(o)
+        per_dev.append(cpair(cstr(d), clist(cxres(o) for o in distinct)))
+    return clist(per_dev)
+
+
+def run_exec_part(ctx):
+    rng = ctx.rng("exec")
+    n = 2500 if ctx.thorough else 260
+    cases = [gen_exec_case(rng, ctx.thorough) for _ in range(n)]
+    outs = core.run_impl_sharded("c15_runner.py", cases, wrap=lambda c: {"op": "exec", "cases": c},
+                                 shards=min(core.NPROC, max(1, len(cases) // 10)))
+    terms = [exec_term(c, o) for c, o in zip(cases, outs)]
+    res = core.run_case_files(ID, "exec_output", IMPORTS, {"holds": "fun c => P_C15_exec c"}, terms,
+                              per_file=40, tag="exec")
+    stats = {"runs": 0, "ok": 0, "ValueError": 0, "other": 0, "peers": 0, "merged_sessions": 0,
+             "cases_with_peers_on_both_ends": 0, "permutations": 0}
+    seen, nontrivial = set(), 0
+    for c, o in zip(cases, outs):
+        both = 0
+        for d in c["devices"]:
+            for r in o["out"][d]:
+                stats["runs"] += 1
+                if "ok" in r:
+                    stats["ok"] += 1
+                    stats["peers"] += len(r["ok"]["peers"])
+                else:
+                    stats[r["err"]] += 1
+            r0 = o["out"][d][0]
+            if "ok" in r0 and r0["ok"]["peers"]:
+                both += 1
+        stats["permutations"] += len(o["orders"])
+        h = core.canon_hash(c)
+        if h in seen:
+            continue
+        seen.add(h)
+        if both >= 2 and len(c["rules"]) >= 2:
+            nontrivial += 1
+            stats["cases_with_peers_on_both_ends"] += 1
+    for i in res["holds"]:
+        c, o = cases[i], outs[i]
+        kinds = sorted({r.get("err", "ok") for d in c["devices"] for r in o["out"][d]})
+        ctx.add_violation(core.Violation(
+            signature="C15/executor-not-mirrored-or-order-dependent/" + "+".join(kinds),
+            what="MeshExecutor.execute_for: results differ between permutations of rule registration, or the two "
+                 "ends of a session do not mirror each other (addr / AS number / families / vrf / group)",
+            replay={"kind": "exec", "case": c, "impl": {d: o["out"][d][:2] for d in c["devices"]}}))
+    return {"evaluations": len(cases), "distinct_nontrivial": nontrivial, "stats": stats,
+            "samples": [{"input": cases[-1], "impl": {d: outs[-1]["out"][d][:1] for d in cases[-1]["devices"]}}]}
+
+
 def run(ctx):
     core.proof_stage(ctx, THEOREM_FILE)
     tbl = core.run_impl("c15_runner.py", {"op": "schemas"})
     m = run_merge_part(ctx, tbl)
+    x = run_exec_part(ctx)
     ctx.coverage.update({
-        "evaluations": m["evaluations"],
-        "distinct_nontrivial": m["distinct_nontrivial"],
+        "evaluations": m["evaluations"] + x["evaluations"],
+        "distinct_nontrivial": m["distinct_nontrivial"] + x["distinct_nontrivial"],
         "rule": "merge: distinct by canonical hash of the realised (a,b,c); non-trivial = a and b set at least one "
-                "common top-level attribute (so a merger actually runs)",
-        "samples": m["samples"],
+                "common top-level attribute (so a merger actually runs). executor: distinct by hash of the case; "
+                "non-trivial = at least 2 rules and at least two devices end up with peers",
+        "samples": m["samples"][:1] + x["samples"],
         "traces_validated_against_impl": m["evaluations"],
         "disagreements_checked": m["disagreements"],
         "merge": {k: v for k, v in m.items() if k != "samples"},
+        "executor": {k: v for k, v in x.items() if k != "samples"},
         "exhaustive": False,
     })
     ctx.assumptions += [
@@ -381,5 +608,13 @@ def replay(ctx, doc):
                                   [merge_term(tbl, c, out)], tag="replay", extra_defs=schema_defs(tbl))
         print("impl:", json.dumps(out)[:3000])
         print("holds:", not res["holds"], "agree:", not res["agree"])
+        return 1 if res["holds"] else 0
+    if r.get("kind") == "exec":
+        c = r["case"]
+        out = core.run_impl("c15_runner.py", {"op": "exec", "cases": [c]})[0]
+        res = core.run_case_files(ID, "exec_output", IMPORTS, {"holds": "fun c => P_C15_exec c"},
+                                  [exec_term(c, out)], tag="replay")
+        print("impl:", json.dumps({d: out["out"][d][:2] for d in c["devices"]})[:4000])
+        print("holds:", not res["holds"])
         return 1 if res["holds"] else 0
     raise core.CheckFailure("unknown replay kind")
